@@ -20,11 +20,16 @@
 -/
 import RdfModel.Props.C19Defs
 import RdfModel.Proofs.C19
+import RdfModel.Proofs.C19Eq
 namespace RdfModel.C19
 open RdfModel.DS
 open RdfModel.Spec
 
 /-! ## Term identity -/
+
+/-- `"x"@en` -/
+def exTaggedEnL : Literal := ⟨rdfLangString, [0x78], some (.lang [0x65, 0x6e])⟩
+def exTaggedEn : Term := .lit exTaggedEnL
 
 /-- The byte string `bindNode` hashes (`Datatype "\n" [tag line] LexicalForm`) is unambiguous on
     well-formed literals: equal keys, equal literals. -/
@@ -40,6 +45,34 @@ example : WFLiteral ⟨rdfLangString, [0x78], some (.lang [0x65, 0x6e])⟩ ∧ W
 example : litKeyBytes ⟨rdfLangString, bLang ++ quote [0x65, 0x6e] ++ [0x0a, 0x78], none⟩
     = litKeyBytes ⟨rdfLangString, [0x78], some (.lang [0x65, 0x6e])⟩ := by decide
 example : litKeyBytes ⟨[0x61, 0x0a, 0x62], [0x63], none⟩ = litKeyBytes ⟨[0x61], [0x62, 0x0a, 0x63], none⟩ := by decide
+
+/-- Hence the class of the finding `literal-key-collision-illformed` (two DIFFERENT literals that the
+    store cannot tell apart) contains only pairs with an ill-formed member. -/
+theorem literal_key_collision_illformed (a b : Literal) (hne : a ≠ b)
+    (h : litKeyBytes a = litKeyBytes b) : ¬ WFLiteral a ∨ ¬ WFLiteral b := by
+  by_cases ha : WFLiteral a
+  · by_cases hb : WFLiteral b
+    · exact absurd (Proofs.C19.literal_key_injective a b ha hb h) hne
+    · exact Or.inr hb
+  · exact Or.inl ha
+
+/-- … and the class is inhabited, with the set semantics visibly lost (finding C19-K2; replayed on the
+    Go code by the harness corpus): after adding `s p "x"@en` and then `s p "lang=\"en\"\nx"^^rdf:langString`
+    (no tag) the second add is swallowed, the iteration reports one quad, and `HasQuad` of the second
+    answers `true` on a dataset it was never stored in. -/
+def exCollL : Literal := ⟨rdfLangString, bLang ++ quote [0x65, 0x6e] ++ [0x0a, 0x78], none⟩
+def exColl : Term := .lit exCollL
+
+example : exCollL ≠ exTaggedEnL ∧ litKeyBytes exCollL = litKeyBytes exTaggedEnL ∧ ¬ WFLiteral exCollL := by decide
+
+example :
+    (run init [.addQuad ⟨some (.iri [0x61]), some (.iri [0x70]), some exTaggedEn, none⟩,
+               .addQuad ⟨some (.iri [0x61]), some (.iri [0x70]), some exColl, none⟩,
+               .iterQuads []]).2
+      = [.unit, .unit, .quads [⟨.iri [0x61], .iri [0x70], exTaggedEn, none⟩]] ∧
+    (run init [.addQuad ⟨some (.iri [0x61]), some (.iri [0x70]), some exTaggedEn, none⟩,
+               .hasQuad ⟨some (.iri [0x61]), some (.iri [0x70]), some exColl, none⟩]).2
+      = [.unit, .bool true] := by decide
 
 /-- Two well-formed terms are interned as the same node only if they are the same term. -/
 theorem intern_injective (a b : Term) (ha : WFTerm a) (hb : WFTerm b) (h : keyOf a = keyOf b) : a = b :=
@@ -57,6 +90,43 @@ example : WFTerm (.bnode (some (.scoped 1 1))) ∧ WFTerm (.iri []) := by decide
 /-- Outside the quantifier: a blank node without identifier is not `TermEquals` to itself, but the
     dataset interns it under the struct value and so treats it as equal to itself. -/
 example : (Term.bnode none).termEquals (some (.bnode none)) = false ∧ keyOf (.bnode none) = keyOf (.bnode none) := by decide
+
+/-! ### Equality beyond well-formed literals
+
+The property's universe contains "literals differing only in datatype, tag or lexical form": two
+literals that differ only in the PRESENCE of a tag (one of them is then not a well-formed RDF
+literal) are different terms. The equality and matcher theorems therefore do not assume `WFLiteral`:
+the hypothesis is `HasIdentity` (everything but the blank node without identifier). -/
+
+/-- `Literal.TermEquals` is structural equality on ALL literals, ill-formed ones included: same
+    datatype, same lexical form, same tag (presence, kind, language, direction). -/
+theorem literal_equals_iff_eq (a b : Literal) :
+    a.equals b = true ↔ a.dt = b.dt ∧ a.lex = b.lex ∧ a.tag = b.tag := by
+  rw [Proofs.C19.Literal.equals_iff]
+  obtain ⟨_, _, _⟩ := a; obtain ⟨_, _, _⟩ := b
+  simp
+
+/-- `TermEquals` is symmetric on every pair of terms (no hypothesis: a blank node without identifier
+    equals nothing, from either side). -/
+theorem termEquals_symm (t u : Term) : t.termEquals (some u) = u.termEquals (some t) :=
+  Proofs.C19.termEquals_symm t u
+
+/-- `termEquals_iff_eq` for every term with an identity: a literal of any shape, an IRI, a blank node
+    with an identifier. -/
+theorem termEquals_iff_eq_identity (t : Term) (ht : HasIdentity t) (u : Option Term) :
+    t.termEquals u = true ↔ u = some t :=
+  Proofs.C19.termEquals_iff_identity t ht u
+
+/-- `"x"^^rdf:langString` without a tag (ill-formed, but a term with an identity) and `"x"@en` -/
+def exUntagged : Term := .lit ⟨rdfLangString, [0x78], none⟩
+def exTagged : Term := exTaggedEn
+
+example : HasIdentity exUntagged ∧ ¬ WFTerm exUntagged ∧ WFTerm exTagged := by decide
+
+/-- The two differ only in the presence of the tag: not equal, from either side (the asymmetric
+    comparison of seeded defect C19r3-1 answers `true` for the first), and the store keeps them apart. -/
+example : exUntagged.termEquals (some exTagged) = false ∧ exTagged.termEquals (some exUntagged) = false
+    ∧ keyOf exUntagged ≠ keyOf exTagged := by decide
 
 /-! ## Refinement -/
 
@@ -148,6 +218,31 @@ theorem equalsOneOf_mem (ts : List Term) (hts : ∀ u ∈ ts, WFTerm u) (t : Opt
   Proofs.C19.equalsOneOf_matches_iff ts hts t
 
 example : ∀ u ∈ [Term.iri [0x61], .lit ⟨[0x64], [0x78], none⟩], WFTerm u := by decide
+
+/-- `equals_spec` / `equalsOneOf_mem` for expected terms of any shape that have an identity
+    (ill-formed literals included). -/
+theorem equals_spec_identity (u : Term) (hu : HasIdentity u) (t : Option Term) :
+    (TM.equals u).matches t = true ↔ t = some u := by
+  simp only [TM.matches]
+  exact Proofs.C19.termEquals_iff_identity u hu t
+
+theorem equalsOneOf_mem_identity (ts : List Term) (hts : ∀ u ∈ ts, HasIdentity u) (t : Option Term) :
+    (equalsOneOf (ts.map some)).matches t = true ↔ ∃ u ∈ ts, t = some u :=
+  Proofs.C19.equalsOneOf_matches_iff_identity ts hts t
+
+example : ∀ u ∈ [exUntagged, Term.iri [0x71]], HasIdentity u := by decide
+
+/-- The matchers built from the untagged literal do not select the tagged one (compiled form), and
+    an iteration restricted to it over a dataset holding the tagged one is empty, as `HasQuad` says. -/
+example : (equalsOneOf [some exUntagged, some (.iri [0x71])]).matches (some exTagged) = false
+    ∧ (TM.equals exUntagged).matches (some exTagged) = false := by decide
+
+example :
+    (run init [.addQuad ⟨some (.iri [0x61]), some (.iri [0x70]), some exTagged, none⟩,
+               .iterQuads [.object (.equals exUntagged)],
+               .iterQuads [.triple (.object (equalsOneOf [some exUntagged, some (.iri [0x71])]))],
+               .hasQuad ⟨some (.iri [0x61]), some (.iri [0x70]), some exUntagged, none⟩]).2
+      = [.unit, .quads [], .quads [], .bool false] := by decide
 
 /-! ## Per-graph views -/
 
